@@ -402,6 +402,17 @@ def run_shard(ctx):
         ctx.seen('outcomes', out)
 
 
+    # 3. big programs (tens of equations and names)
+    big = gen.big_programs(rng, big_offsets=True, lhs_offsets=(0, 0, 0, 0, 0, 0, 0, -1, 1))
+    for k in range(ctx.pick(2, 30)):
+        prog = big.program()
+        script = gen.render_program(prog, gen.Layout(rng, noise=rng.choice([0.0, 0.2])))
+        ctx.evaluation(script, nontrivial=True, sample={'script': script[:300], 'kind': 'big'})
+        ctx.count('big_programs')
+        out = check_program(ctx, prog, script, rng, n_data=2)
+        ctx.seen('outcomes', out)
+
+
 def replay(ctx, case):
     prog = gen.from_json(case['program'])
     ctx.evaluation(case['script'], nontrivial=True)
